@@ -87,6 +87,11 @@ def parse_forms(text: str, all_splits: bool):
     if all_splits:
         for i in range(1, len(text)):
             yield f'split@{i}', [text[:i], text[i:]]
+        # chunk sources may hold any number of empty chunks (a count, not a shape): long runs before, inside and after the text
+        for run_len in ((3, 2500) if all_splits == 'runs' else ()):
+            mid = len(text) // 2
+            yield f'empty_run_{run_len}', [''] * run_len + [text[:mid]] + [''] * run_len + [text[mid:]] + [''] * run_len
+            yield f'empty_run_iter_{run_len}', iter([''] * run_len + [text[:mid]] + [''] * run_len + [text[mid:]] + [''] * run_len)
         # a real OS-level text file whose .name is a file descriptor number, not a path (tempfile.TemporaryFile, os.fdopen);
         # for the smallest documents only (one OS file per text)
         import tempfile
@@ -280,12 +285,26 @@ def check_shared_blocks(acc: core.Acc) -> None:
                 acc.fail('roundtrip_differs', case, f'shared block ({sname}): {want} -> {got}', gen='shared')
 
 
+def _too_deep() -> Keyvalues:
+    import sys
+    deep = cur = Keyvalues('level', [])
+    for _ in range(sys.getrecursionlimit() + 50):
+        nxt = Keyvalues('level', [])
+        cur.append(nxt)
+        cur = nxt
+    return deep
+
+
 POLLUTERS = {
     'single_block_leaf': lambda: Keyvalues.parse('"a" "b" }', single_block=True),
     'single_block_block': lambda: Keyvalues.parse('"a" { "x" "y" } "z" "w"', single_block=True),
     'parse_error_midway': lambda: Keyvalues.parse('"a" "b"\n"c" {\n"d"\n'),
     'tokenizer_peek_abandoned': lambda: __import__('srctools.tokenizer', fromlist=['Tokenizer']).Tokenizer('"x" "y" {').peek(),
     'tokenizer_pushback_abandoned': lambda: (lambda t: (t(), t.push_back(*t())))(__import__('srctools.tokenizer', fromlist=['Tokenizer']).Tokenizer('} "q" "r"')),
+    'serialise_fails_nonstring_leaf': lambda: Keyvalues('Outer', [Keyvalues('fine', '1'), Keyvalues('bad', 12)]).serialise(),
+    'str_fails_nonstring_leaf': lambda: str(Keyvalues('Outer', [Keyvalues('fine "q"', '1'), Keyvalues('bad', None)])),
+    'serialise_fails_too_deep': lambda: _too_deep().serialise(),
+    'export_abandoned': lambda: next(iter(Keyvalues('Outer', [Keyvalues('fine', '1'), Keyvalues('blk', [])]).export())),
     'serialise_other': lambda: Keyvalues('zz', [Keyvalues('a"b', 'c\\d')]).serialise(indent_braces=True, start_indent='\t\t'),
 }
 
@@ -310,6 +329,38 @@ def check_after_polluter(acc: core.Acc) -> None:
                          f'after the unrelated call {pname!r}, the round trip of {specs} failed: {f.kind}: {f.detail[:400]}', gen='history', polluter=pname)
 
 
+EDIT_TEMPLATES = ['Block "%04d"', 'key\\%04d', "Sub'%04d", 'leaf\t%04d', 'plain%04d']
+
+
+def check_edit_history(acc: core.Acc, count: int) -> None:
+    """A history of `count` short-lived trees whose names and values are set with edit() (strings computed at run time), each
+    serialised, re-parsed and dropped before the next is built: no tree's round trip may depend on the ones before it.  The case is
+    the whole history."""
+    case = {'edit_history': count}
+    for i in range(count):
+        acc.evaluations += 1
+        acc.nontrivial += 1
+        tree = Keyvalues.root(Keyvalues('block', [Keyvalues('key', 'v'), Keyvalues('sub', [Keyvalues('x', '')])]), Keyvalues('leaf', 'w'))
+        tree[0].edit(name=EDIT_TEMPLATES[0] % i)
+        tree[0][0].edit(name=EDIT_TEMPLATES[1] % i, value='value "%d"' % i)
+        tree[0][1].edit(name=EDIT_TEMPLATES[2] % i)
+        tree[0][1][0].edit(name=EDIT_TEMPLATES[4] % i, value=[])
+        tree[1].edit(name=EDIT_TEMPLATES[3] % i, value='%d\\' % i)
+        want = dump(tree)
+        try:
+            text = tree.serialise()
+            got = dump(Keyvalues.parse(text))
+            text2 = str(tree)
+        except Exception as exc:  # noqa: BLE001
+            acc.fail('reparse_crash', case, f'edit()-built tree #{i} {want}: {type(exc).__name__}: {str(exc)[:200]}', gen='edit_history')
+            return
+        if got != want or text2 != text:
+            acc.fail('state_carried_between_calls', case, f'tree #{i} of a history of edit()-built trees: {want}\n serialised as {text!r}\n '
+                     f'(str(): {text2!r})\n re-read as {got}', gen='edit_history')
+            return
+        del tree
+
+
 def shard(spec) -> core.Acc:
     acc = core.Acc()
     kind = spec[0]
@@ -320,7 +371,7 @@ def shard(spec) -> core.Acc:
             if i % nparts != part:
                 continue
             acc.nontrivial += 1
-            check_doc(acc, specs, configs, n <= 2, {'gen': 'shape'})
+            check_doc(acc, specs, configs, 'runs' if n <= 2 else False, {'gen': 'shape'})
             if len(specs) == 1 and specs[0][0] == 'B':
                 check_doc(acc, specs, CORNER_CONFIGS, False, {'gen': 'shape'}, single_block_root=True)
             if i == part:
@@ -332,7 +383,7 @@ def shard(spec) -> core.Acc:
         for tail in itertools.product(sigma, repeat=rest):
             s = prefix + ''.join(tail)
             acc.nontrivial += 1
-            check_doc(acc, context(ROLES[role](s)), CORNER_CONFIGS[:2] if length >= 3 else CORNER_CONFIGS, length <= 1,
+            check_doc(acc, context(ROLES[role](s)), CORNER_CONFIGS[:2] if length >= 3 else CORNER_CONFIGS, 'runs' if length <= 1 else False,
                       {'gen': 'role', 'role': role})
             if length <= 2:
                 # the target alone, as the first thing on line 1, delivered in every two-chunk split
@@ -351,6 +402,7 @@ def shard(spec) -> core.Acc:
         check_after_polluter(acc)
         for depth in (50, 200, 400, 600, 800):
             check_deep(acc, depth)
+        check_edit_history(acc, 400)
     elif kind == 'long':
         # long names / values (several KiB) holding one escapable character at the start, middle or end
         for n in (spec[1],):
@@ -431,7 +483,7 @@ def run(ctx: core.Ctx) -> None:
                 f'3-level context tree, and all (name, value) pairs of strings of length <= 2; (c) every Unicode scalar value '
                 f'alone and between two letters in each role ({"BMP in all roles, astral planes as leaf value" if ctx.quick else "all planes in all roles"}); each text re-parsed from str, file object, lines, characters '
                 f'(and every two-chunk split for the smallest documents); trees sharing one block object at several places; chains of 50..800 nested blocks; names and values of 1000..9000 characters with an escapable character at either end or in the middle; round trips '
-                f'preceded by an unrelated call (early-returning single_block parse, parse error, abandoned tokenizer). Non-trivial = every generated document (each is '
+                f'preceded by an unrelated call (early-returning single_block parse, parse error, abandoned tokenizer, a serialise()/str() that failed part-way, an abandoned export()); chunk lists with runs of 3 and 2500 empty chunks (smallest documents); a history of 400 short-lived trees renamed with edit(). Non-trivial = every generated document (each is '
                 f'enumerated once).')
 
 
@@ -439,6 +491,9 @@ def replay(case: dict) -> list:
     acc = core.Acc()
     if 'deep' in case:
         check_deep(acc, case['deep'])
+        return acc.all_failures()
+    if 'edit_history' in case:
+        check_edit_history(acc, case['edit_history'])
         return acc.all_failures()
     if 'shared' in case:
         check_shared_blocks(acc)
@@ -450,6 +505,6 @@ def replay(case: dict) -> list:
     def tup(s):
         return (s[0], s[1], [tup(c) for c in s[2]]) if s[0] == 'B' else (s[0], s[1], s[2])
     specs = [tup(s) for s in case['specs']]
-    check_doc(acc, specs, ALL_CONFIGS if case.get('configs') == 'all' else CORNER_CONFIGS, bool(case.get('all_splits')),
+    check_doc(acc, specs, ALL_CONFIGS if case.get('configs') == 'all' else CORNER_CONFIGS, case.get('all_splits') or False,
               {}, single_block_root=bool(case.get('single')))
     return acc.all_failures()
